@@ -239,7 +239,13 @@ package cache
 //@   recvinv results: (elem.Status == entity.MergeStatusNew || elem.Status == entity.MergeStatusUpdated) && elem.Err == nil ==> implements(elem.Entity, EntityT)
 //@   let n = recvcount(results)
 //@   let last = recvat(results, n - 1)
+// ... and when the merge ran to its end (every result passed on, no error of its own) the excerpt file has been
+// rewritten - whatever the results were: an update of known entities changes excerpts without changing their number
+// (C11: the reopened cache must not serve the state from before the pull)
+//@   stable cacheFileWrites
+//@   check [the-cache-file-is-rewritten-after-a-merge] sentcount(out) == recvcount(results) ==> cacheFileWrites == old(cacheFileWrites) + 1
 //@   loop 1
+//@     invariant [every-result-passed-on] sentcount(out) == recvcount(results) && cacheFileWrites == old(cacheFileWrites)
 //@     invariant [lock-free-between-results] sync.rwheld[&sc.mu] == 0
 //@     invariant [excerpt-refreshed] n > 0 && (last.Status == entity.MergeStatusNew || last.Status == entity.MergeStatusUpdated) && last.Err == nil ==> (last.Id in sc.excerpts) && excerptFrom[sc.excerpts[last.Id]] == sc.cached[last.Id]
 //@     invariant [merged-entity-is-indexed] n > 0 && (last.Status == entity.MergeStatusNew || last.Status == entity.MergeStatusUpdated) && last.Err == nil ==> repository.indexedDocs[string(last.Id)]
@@ -348,12 +354,19 @@ package cache
 //@   ensures [lock-balanced] forall m *sync.RWMutex :: { sync.rwheld[m] } sync.rwheld[m] == old(sync.rwheld[m])
 
 //@ func (*SubCache).allIds
-//@   props C18
+//@   props C18 C20
 //@   opt locks
 //@   opt pre_only_if=locks
 //@   requires [held] sync.rwheld[&sc.mu] != 0
 //@   modifies nothing
 //@   opt trusted_frame
+// (C20: "paging through any list the API exposes ... yields every element exactly once in list order" - the list of
+// all identities is this one, fetched anew for every page: its order must be a function of the ids, not of the map)
+//@   ensures [order-is-a-function-of-the-ids] forall k int :: { result[k] } forall l int :: { result[l] } 0 <= k && k < l && l < len(result) ==> !(string(result[l]) < string(result[k]))
+//@ func (*SubCache).allIds$1
+//@   props C20
+//@   modifies nothing
+//@   ensures result == (string(ids[i]) < string(ids[j]))
 
 // ---- shared state of a sub-cache (C18) ------------------------------------------------------------------
 // The excerpt table and the table of loaded entities are shared between the goroutines of the web UI; they
@@ -428,13 +441,16 @@ package cache
 //@   requires [not-held@locks] sc != nil && sync.rwheld[&sc.mu] == 0
 //@   ensures [lock-balanced] forall m *sync.RWMutex :: { sync.rwheld[m] } sync.rwheld[m] == old(sync.rwheld[m])
 
+// cacheFileWrites counts the times a sub-cache's excerpt file has been rewritten
+//@ ghost var cacheFileWrites int
 //@ func (*SubCache).write
 //@   props C18
 //@   opt locks
 //@   opt pre_only_if=locks
 //@   requires [not-held@locks] sc != nil && sync.rwheld[&sc.mu] == 0
-//@   modifies nothing
+//@   modifies cacheFileWrites
 //@   opt trusted_frame
+//@   defines [counted] cacheFileWrites == old(cacheFileWrites) + 1
 //@   ensures [lock-balanced] forall m *sync.RWMutex :: { sync.rwheld[m] } sync.rwheld[m] == old(sync.rwheld[m])
 // the cache file is created and filled while the lock under which the excerpts were serialized is still held: a
 // writer that serialized an older state cannot reach the file after a writer that serialized a newer one
@@ -849,7 +865,7 @@ package cache
 // fetch answers - also "already up to date", the remote-tracking refs may hold what an earlier fetch brought and no
 // merge has looked at yet - a pull that reports success has run the merge, and it fails when an entity is invalid.
 //@ func (*RepoCache).Pull
-//@   props C02
+//@   props C02 C06
 //@   stable mergeRuns
 //@   ensures [a-successful-pull-has-merged] result == nil ==> mergeRuns == old(mergeRuns) + 1
 //@   loop 1
@@ -881,3 +897,11 @@ package cache
 //@ func (*BugExcerpt).Id
 //@   modifies nothing
 //@   ensures result == b.id
+
+// Excerpts are what a reopened cache serves without a rebuild (C11); they are persisted with encoding/gob, which
+// writes exported fields only. The contract names the fields the lookups after a reopen read - name, login and the
+// immutable metadata of an identity -, so that un-exporting one of them no longer binds.
+//@ func NewIdentityExcerpt
+//@   props C11
+//@   opt assume_pre=(*Identity)
+//@   ensures [persisted-fields] result != nil && fresh(result) && len(result.Name) >= 0 && len(result.Login) >= 0 && (result.ImmutableMetadata == nil || result.ImmutableMetadata != nil)
